@@ -29,7 +29,7 @@ def contracts():
                     cases=[('no-missing', ['self.missing is None']), ('missing', ['self.missing is not None', 'callable(self.missing)'])]))
     cs.append(Equiv('core._assign_op', 'ref_mut.assign_op_ref', config=_nosum('core._assign_op'),
                     args={'dest': 'ref', 'op': 'str', 'arg': 'ref', 'val': 'ref', 'path': 'ref', 'scope': 'chainmap'},
-                    cases=[('[', ["op == '['"]), ('.', ["op == '.'"]), ('P', ["op == 'P'"]), ('other', ["op != '['", "op != '.'", "op != 'P'"])]))
+                    cases=[('[', ["op == '['"]), ('.', ["op == '.'"]), ('P', ["op == 'P'"]), ('other', ["op != '['", "op != '.'", "op != 'P'"])], raise_only_cases=['other']))
     cs.append(Equiv('mutation._set_sequence_item', 'ref_mut.set_seq_ref', args={'target': 'ref', 'idx': 'ref', 'val': 'ref'}))
     cs.append(Equiv('mutation._apply_for_each', 'ref_mut.apply_for_each_ref', config=_nosum('mutation._apply_for_each'),
                     args={'func': 'ref', 'path': 'inst:core.Path', 'val': 'ref'},
